@@ -81,11 +81,25 @@ def first_diff(exp, act, path=()):
     return None
 
 
-def actual_errors(result):
-    """Normalise GraphQLResult.errors through their response dictionaries."""
+def under_any(path, prefixes):
+    """``path`` lies strictly below one of ``prefixes``."""
+    if path is None:
+        return False
+    path = tuple(path)
+    return any(len(path) > len(z) and path[:len(z)] == tuple(z)
+               for z in prefixes)
+
+
+def actual_errors(result, ignore_under=()):
+    """Normalise GraphQLResult.errors through their response dictionaries.
+    Errors reported from below ``ignore_under`` (rows of a lazily produced list
+    whose iteration failed afterwards: the list is null, what its rows
+    reported is not modelled) are left out."""
     out = []
     for err in result.errors:
         d = err.to_dict()
+        if ignore_under and under_any(d.get("path"), ignore_under):
+            continue
         locs = frozenset(
             (l.get("line"), l.get("column")) for l in d.get("locations", [])
         )
@@ -111,7 +125,7 @@ def check_response(props, config, exp, result, locations=True,
             props, "data_mismatch", (config, d[0]),
             "first difference (%s) at %r" % (d[0], d[1]),
         ))
-    acts = actual_errors(result)
+    acts = actual_errors(result, getattr(exp, "lazy_failed", ()))
     if line_shift:
         # the same document submitted with ``line_shift`` more leading line
         # breaks: positions are those of THIS request's text
@@ -193,7 +207,7 @@ def check_serial(config, exp, events, req_id=None):
         k = path[0]
         if k not in first:
             first[k] = (gseq, kind)
-        last[k] = (gseq, kind)
+        last[k] = (gseq, kind, path)
         if kind == "rs" and k not in first_rs:
             first_rs[k] = gseq
     # every event (resolver, hook, middleware) under an earlier root precedes
@@ -213,8 +227,16 @@ def check_serial(config, exp, events, req_id=None):
             if ki not in last or kj not in rs_under:
                 continue
             if last[ki][0] > rs_under[kj]:
+                key = (config, "resolver-start")
+                lp = tuple(last[ki][2])
+                if any(len(lp) > len(z) and lp[:len(z)] == tuple(z)
+                       for z in getattr(exp, "lazy_failed", ())):
+                    # what is still running belongs to rows of a lazily
+                    # produced list whose iteration failed afterwards
+                    key = (config, "resolver-start",
+                           "rows-of-a-failed-lazy-list")
                 out.append(Violation(
-                    ("C09",), "serial_order", (config, "resolver-start"),
+                    ("C09",), "serial_order", key,
                     "root %r still active (last event %s@%d) when a resolver "
                     "under root %r was invoked (@%d)" % (
                         ki, last[ki][1], last[ki][0], kj, rs_under[kj])))
@@ -351,6 +373,9 @@ def check_wellformed(stage, config, result, text, exp=None):
                 out.append(Violation(
                     props, "error_shape", (stage, "path", "not-keys-indices"),
                     repr(p)))
+            elif exp is not None and under_any(
+                    p, getattr(exp, "lazy_failed", ())):
+                pass  # reported by a row of a list that was nulled afterwards
             elif "data" in resp:
                 ok, val = _walk(resp["data"], p)
                 if not ok:
@@ -374,6 +399,8 @@ def check_wellformed(stage, config, result, text, exp=None):
         for e in errors or []:
             if isinstance(e, dict) and isinstance(e.get("path"), list):
                 k = tuple(e["path"])
+                if under_any(k, getattr(exp, "lazy_failed", ())):
+                    continue
                 got[k] = got.get(k, 0) + 1
         for k, n in want.items():
             if got.get(k, 0) != n:
@@ -597,9 +624,18 @@ def check_hooks(config, outcome_class, exp, events, tags, mw_tags,
                         props, "field_hooks", (config, "any", "repeated",
                                                "crashed"),
                         "path %r: %d" % (p, len(lst))))
+        lazy = getattr(exp, "lazy_failed", ())
+        for p, lst in list(starts.items()) + list(ends.items()):
+            # fields of rows that a lazily produced list handed over before
+            # its iteration failed: resolved or not, never more than once
+            if under_any(p, lazy) and len(lst) > 1:
+                out.append(Violation(
+                    props, "field_hooks", (config, "any", "repeated",
+                                           "row-of-failed-lazy-list"),
+                    "path %r: %d" % (p, len(lst))))
         if strict_resolved:
             for p in list(starts) + list(ends):
-                if p not in resolved:
+                if p not in resolved and not under_any(p, lazy):
                     out.append(Violation(
                         props, "field_hooks", (config, "any", "unexpected-path",
                                                "-"),
